@@ -160,8 +160,8 @@ Qed.
 
 (* ------------------------------------------------------------------------------------------ *)
 (* Follow-up of the seeded mutations C02/m2 and C02/m3.  "An artifact is never restored for a target whose current inputs
-   differ from those it was stored under", for the inputs the Trust proofs leave out (tools) and for the mechanism the
-   engine model abstracts (the memoised path hasher). *)
+   differ from those it was stored under", stated directly on the cache key for tools (which are also inside the Trust proofs
+   of C02_partial since the tools deepening) and for the mechanism the engine model abstracts (the memoised path hasher). *)
 
 (* the cache key (label, rule key, source key) separates the outputs of the tools - list-form and dict-form (named): equal
    source keys force equal path-hash streams of every output of every tool; so an entry stored when some tool output was
